@@ -85,6 +85,9 @@ partial def skelOf : Sexp → Option Skel
   | .list [.atom "ite", c, a, b] => do some (.ite (← skelOf c) (← skelOf a) (← skelOf b))
   | .list [.atom "ann", t, ty] => do some (.ann (← skelOf t) (← tyOf ty))
   | .list [.atom "bindert", b, .atom x, ty, body] => do some (.binderT (← b.toNat?) (toCodes (dec x)) (← tyOf ty) (← skelOf body))
+  | .list [.atom "interval", a, b] => do some (.interval (← skelOf a) (← skelOf b))
+  | .list [.atom "collect", .atom x, body] => do some (.collect (toCodes (dec x)) (← skelOf body))
+  | .list [.atom "collectt", .atom x, ty, body] => do some (.collectT (toCodes (dec x)) (← tyOf ty) (← skelOf body))
   | _ => none
 
 partial def skelTo : Skel → Sexp
@@ -96,6 +99,9 @@ partial def skelTo : Skel → Sexp
   | .ite c a b => .list [.atom "ite", skelTo c, skelTo a, skelTo b]
   | .ann t ty => .list [.atom "ann", skelTo t, tyTo ty]
   | .binderT b x ty body => .list [.atom "bindert", Sexp.ofNat b, .atom (enc (ofCodes x)), tyTo ty, skelTo body]
+  | .interval a b => .list [.atom "interval", skelTo a, skelTo b]
+  | .collect x body => .list [.atom "collect", .atom (enc (ofCodes x)), skelTo body]
+  | .collectT x ty body => .list [.atom "collectt", .atom (enc (ofCodes x)), tyTo ty, skelTo body]
 
 def tokTo : Tok → Sexp
   | .lp => .atom "lp" | .rp => .atom "rp" | .dot => .atom "dot"
@@ -128,6 +134,9 @@ def namesOKb (S : List (List Nat)) : Skel → Bool
   | .ite c a b => namesOKb S c && namesOKb S a && namesOKb S b
   | .ann t ty => namesOKb S t && ty.namesOKb S
   | .binderT _ x ty body => NameOK S x && idShaped x && ty.namesOKb S && namesOKb S body
+  | .interval a b => namesOKb S a && namesOKb S b
+  | .collect x body => NameOK S x && idShaped x && namesOKb S body
+  | .collectT x ty body => NameOK S x && idShaped x && ty.namesOKb S && namesOKb S body
 
 /-! matching a real line-broken text against `printTextW`: is it `printTextW sepB sepF [] t` for SOME
 separators with `SepOK`?  (After a separator the text never begins with whitespace, so the separator
@@ -184,6 +193,25 @@ partial def matchW (uni : Bool) : Skel → List Nat → Option (List Nat)
     let r ← eatPrefix (58 :: 58 :: printTyText Gen.ladder.ty Gen.symbolsC uni ty) r
     let r ← eatPrefix [46, 32] r
     matchW uni body r
+  | .interval a b, cs => do
+    let r ← eatPrefix [123] cs
+    let r ← matchW uni a r
+    let r ← eatPrefix [46, 46] r
+    let r ← matchW uni b r
+    eatPrefix [125] r
+  | .collect x body, cs => do
+    let r ← eatPrefix [123] cs
+    let r ← eatPrefix x r
+    let r ← eatPrefix [46, 32] r
+    let r ← matchW uni body r
+    eatPrefix [125] r
+  | .collectT x ty body, cs => do
+    let r ← eatPrefix [123] cs
+    let r ← eatPrefix x r
+    let r ← eatPrefix (58 :: 58 :: printTyText Gen.ladder.ty Gen.symbolsC uni ty) r
+    let r ← eatPrefix [46, 32] r
+    let r ← matchW uni body r
+    eatPrefix [125] r
 partial def matchWrap (uni : Bool) (b : Bool) (t : Skel) (cs : List Nat) : Option (List Nat) :=
   if b then do
     let r ← eatPrefix [40] cs
